@@ -265,6 +265,9 @@ class SimWorker:
         self.weight = 4
         self.harness_exc = None
         self.last_run = -1
+        self.chunks_done = 0
+        self.replacement = False  # forked later, from the parent's state at that moment (maxtasksperchild)
+        self.initargs_blob = None
 
     def mid_task(self):
         return self.state == "running" and self.preempted_at is not None
@@ -339,7 +342,7 @@ class Scheduler:
             w.state = "init"
             try:
                 if pool.initializer is not None:
-                    args = fork_loads(pool.initargs_blob)
+                    args = fork_loads(w.initargs_blob if w.initargs_blob is not None else pool.initargs_blob)
                     pool.initializer(*args)
             except _Killed:
                 raise
@@ -368,6 +371,12 @@ class Scheduler:
                     w.tasks_done += 1
                 w.preempted_at = None
                 pool._deliver(w, out)
+                w.chunks_done += 1
+                if pool.maxtasks is not None and w.chunks_done >= pool.maxtasks:
+                    # maxtasksperchild: this process exits; the pool forks a fresh one later
+                    w.state = "exited"
+                    pool._spawn_replacement(w)
+                    return
         except _Killed:
             w.state = "dead"
         except BaseException as e:  # harness bug
@@ -444,8 +453,17 @@ class Scheduler:
         if w.state == "unstarted":
             if any(x.tasks_done for x in w.pool.workers):
                 self.st.fault("late_worker_start")
-            w.image = w.pool.fork_image.forked()
-            what = "start"
+            if w.replacement:
+                # forked now, by the pool's maintenance thread: the child sees the parent's
+                # memory as it is at this instant (module globals AND the initargs objects)
+                self.parent_image.refresh()
+                w.image = self.parent_image.forked()
+                w.initargs_blob = fork_dumps(w.pool.initargs_live)
+                self.st.fault("worker_recycled")
+                what = "fork+start"
+            else:
+                w.image = w.pool.fork_image.forked()
+                what = "start"
         elif w.state == "idle":
             w.chunk = w.pool.queue.pop(0)
             for job, idx, _ in w.chunk:
@@ -587,8 +605,12 @@ class SimPool:
             raise TypeError("initializer must be a callable")
         self.sched = sched
         self.pid = len(sched.pools)
+        if maxtasksperchild is not None and (not isinstance(maxtasksperchild, (int, np.integer)) or maxtasksperchild <= 0):
+            raise ValueError("maxtasksperchild must be a positive int or None")
+        self.maxtasks = None if maxtasksperchild is None else int(maxtasksperchild)
         self.initializer = initializer
-        self.initargs_blob = fork_dumps(tuple(initargs))
+        self.initargs_live = tuple(initargs)  # the parent's own objects (what a LATER fork would copy)
+        self.initargs_blob = fork_dumps(self.initargs_live)
         self.state = "run"  # close terminated
         self.queue = []  # chunks: list of (job, idx, blob)
         self.jobs = []
@@ -630,6 +652,17 @@ class SimPool:
             self.queue.append(blobs[i : i + chunksize])
         self.sched.tr.shape("submit", self.pid, job.id, len(items), chunksize)
         return job
+
+    def _spawn_replacement(self, old):
+        # runs on the exiting worker's thread while it holds the baton
+        if self.state == "terminated":
+            return
+        nw = SimWorker(self, len(self.workers))
+        nw.replacement = True
+        nw.weight = old.weight
+        self.workers.append(nw)
+        self.sched.all_workers.append(nw)
+        self.sched.tr.shape("recycle", self.pid, old.id, nw.id)
 
     def _deliver(self, w, out):
         # runs on the worker thread while it holds the baton
